@@ -74,12 +74,30 @@ pub fn sections(thorough: bool) -> Vec<Section> {
         let ops = [CaOp::Country("DE"), CaOp::Country("FR"), CaOp::Org("First Org"), CaOp::Org("Zweite \u{d6}rg")];
         let depth = if thorough { 6 } else { 5 };
         let hs = histories(&ops, depth);
-        let sec = Section::new(&format!("library/ca-builder histories depth<={}", depth), &format!("every one of the 4^k histories (k <= {}) of country_name / organization_name calls (two values each) on CertificateBuilder::new().certificate_authority(), then build(): the subject of the returned certificate (and of params()) is what an insertion-ordered map holds after the same assignments; CA flag and the three key usages are present", depth)).with_deadline(if thorough { 600 } else { 30 });
-        crate::run::sweep_cases(&sec, &hs, &|h| format!("{:?}", h), &|h| {
+        let sec = Section::new(&format!("library/ca-builder histories depth<={}", depth), &format!("every one of the 4^k histories (k <= {}) of country_name / organization_name calls (two values each), through CertificateBuilder::new().certificate_authority() and through CaBuilder::new(caller parameters with a three-attribute name), on CertificateBuilder::new().certificate_authority(), then build(): the subject of the returned certificate (and of params()) is what an insertion-ordered map holds after the same assignments; CA flag and the three key usages are present", depth)).with_deadline(if thorough { 600 } else { 30 });
+        // two doors: CertificateBuilder::new().certificate_authority() (an empty name to start with) and the public constructor
+        // CaBuilder::new(params, algorithm) with the caller's own parameters, whose name (CN first, then O, then OU) is the caller's
+        let hs: Vec<(u8, Vec<CaOp>)> = hs.into_iter().flat_map(|h| [(0u8, h.clone()), (1u8, h)]).collect();
+        crate::run::sweep_cases(&sec, &hs, &|h| format!("door {} {:?}", h.0, h.1), &|h| {
+            let (door, h) = (h.0, &h.1);
             let mut out = Outcome::default();
             let mut want: Vec<(Vec<u64>, u32, String)> = Vec::new();
+            if door == 1 {
+                assign(&mut want, OID_CN, T_UTF8, "Caller CN");
+                assign(&mut want, OID_O, T_UTF8, "Caller Org");
+                assign(&mut want, &[2, 5, 4, 11], T_UTF8, "Caller Unit");
+            }
             let r = guarded(|| {
-                let mut b = CertificateBuilder::new().certificate_authority();
+                let mut b = if door == 1 {
+                    let mut p = rcgen::CertificateParams::default();
+                    p.distinguished_name = rcgen::DistinguishedName::new();
+                    p.distinguished_name.push(rcgen::DnType::CommonName, "Caller CN");
+                    p.distinguished_name.push(rcgen::DnType::OrganizationName, "Caller Org");
+                    p.distinguished_name.push(rcgen::DnType::OrganizationalUnitName, "Caller Unit");
+                    rustls_cert_gen::CaBuilder::new(p, Default::default())
+                } else {
+                    CertificateBuilder::new().certificate_authority()
+                };
                 for o in h {
                     b = match o {
                         CaOp::Country(c) => b.country_name(c).map_err(|e| format!("{:?}", e))?,
@@ -139,11 +157,21 @@ pub fn sections(thorough: bool) -> Vec<Section> {
         let ca = CertificateBuilder::new().certificate_authority().organization_name("Org before country").country_name("BR").unwrap().organization_name("Org assigned again").build().expect("CA builds");
         let ca_abs = decode_cert(ca.cert().der()).value.expect("CA decodes");
         let sec = Section::new(&format!("library/end-entity-builder histories depth<={}", depth), &format!("every one of the 7^k histories (k <= {}) of common_name (two values), subject_alternative_names (three lists), client_auth, server_auth on CertificateBuilder::new().end_entity(), then build(&ca): subject = the last common name, alternative names = the lists appended in call order, purposes = first-call order without repeats, issuer = the CA's subject byte for byte", depth)).with_deadline(if thorough { 600 } else { 30 });
-        crate::run::sweep_cases(&sec, &hs, &|h| format!("{:?}", h), &|h| {
+        // two doors again: CertificateBuilder::new().end_entity(), and EndEntityBuilder::new(params, algorithm) with the caller's
+        // own name (CN first, then O), one alternative name and one purpose already in the parameters
+        let hs: Vec<(u8, Vec<EeOp>)> = hs.into_iter().flat_map(|h| [(0u8, h.clone()), (1u8, h)]).collect();
+        crate::run::sweep_cases(&sec, &hs, &|h| format!("door {} {:?}", h.0, h.1), &|h| {
+            let (door, h) = (h.0, &h.1);
             let mut out = Outcome::default();
             let mut want_name: Vec<(Vec<u64>, u32, String)> = Vec::new();
             let mut want_sans: Vec<AbsGn> = Vec::new();
             let mut want_ekus: Vec<Vec<u64>> = Vec::new();
+            if door == 1 {
+                assign(&mut want_name, OID_CN, T_UTF8, "Caller CN");
+                assign(&mut want_name, OID_O, T_UTF8, "Caller Org");
+                want_sans.push(AbsGn::Dns(b"caller.example".to_vec()));
+                want_ekus.push(vec![1, 3, 6, 1, 5, 5, 7, 3, 2]);
+            }
             for o in h {
                 match o {
                     EeOp::Cn(c) => assign(&mut want_name, OID_CN, T_UTF8, c),
@@ -167,7 +195,17 @@ pub fn sections(thorough: bool) -> Vec<Section> {
                 }
             }
             let r = guarded(|| {
-                let mut b = CertificateBuilder::new().end_entity();
+                let mut b = if door == 1 {
+                    let mut p = rcgen::CertificateParams::default();
+                    p.distinguished_name = rcgen::DistinguishedName::new();
+                    p.distinguished_name.push(rcgen::DnType::CommonName, "Caller CN");
+                    p.distinguished_name.push(rcgen::DnType::OrganizationName, "Caller Org");
+                    p.subject_alt_names = vec![rcgen::SanType::DnsName("caller.example".try_into().unwrap())];
+                    p.extended_key_usages = vec![rcgen::ExtendedKeyUsagePurpose::ClientAuth];
+                    rustls_cert_gen::EndEntityBuilder::new(p, Default::default())
+                } else {
+                    CertificateBuilder::new().end_entity()
+                };
                 for o in h {
                     match o {
                         EeOp::Cn(c) => b = b.common_name(c),
